@@ -38,7 +38,7 @@ Definition resets (b : board) (m : cmove) : bool := mv_resets (bget b (mv_from m
 (* the capture as the board sees it *)
 Definition board_captures (b : board) (m : cmove) : bool :=
   match m with
-  | Std _ t _ | Promo _ t _ _ => is_some (bget b t)
+  | Std _ t _ | Promo _ t _ _ => opt_is_some (bget b t)
   | EnPassant _ _ => true
   | Castle _ _ => false
   end.
@@ -130,7 +130,7 @@ Proof.
 Qed.
 
 Lemma apply_std_capture b f t cap b' :
-  apply_std T b f t cap = Ok b' -> f <> t -> is_some cap = is_some (bget b t).
+  apply_std T b f t cap = Ok b' -> f <> t -> opt_is_some cap = opt_is_some (bget b t).
 Proof.
   unfold apply_std. destruct (bremove T b f) as [[[p c] b1]|] eqn:Eq1; [|discriminate].
   intros H Hn.
@@ -144,7 +144,7 @@ Qed.
 
 Theorem apply_captures_from_board m b b' :
   apply_move T m b = Ok b' -> mv_from m <> mv_to m ->
-  is_some (mv_captures m) = board_captures b m.
+  opt_is_some (mv_captures m) = board_captures b m.
 Proof.
   destruct m as [f t cap|f t cap pp|f t|f t]; cbn [apply_move mv_from mv_to mv_captures board_captures];
   intros H Hn; try reflexivity.
@@ -195,7 +195,7 @@ Proof. reflexivity. Qed.
 
 Lemma spec_resets_abstract b m : mv_from m < 64 -> spec_resets (abstract b) m = resets b m.
 Proof.
-  intro H. unfold spec_resets, resets, mv_resets, mover_is_pawn, is_some.
+  intro H. unfold spec_resets, resets, mv_resets, mover_is_pawn, opt_is_some.
   rewrite at_abstract by exact H. reflexivity.
 Qed.
 
@@ -331,6 +331,67 @@ Qed.
 End WithTable2.
 
 (* ------------------------------------------------------------------------------------ *)
+(* 3b. the game-level statement against the spec's own successor function               *)
+(* ------------------------------------------------------------------------------------ *)
+(* Folding Rules.succ_turn itself over the game needs the placement refinement (the cells
+   of the abstraction of the engine's next board are the cells of the spec's successor),
+   which is the business of the move-application refinement proof, not of C16.  It enters
+   here as the section hypothesis [placement_refines], for any invariant [good] that proof
+   maintains; everything about the two clocks is proved here. *)
+Definition agree (p q : Rules.position) : Prop :=
+  Rules.cells p = Rules.cells q /\ Rules.pturn p = Rules.pturn q /\
+  Rules.phalf p = Rules.phalf q /\ Rules.pfull p = Rules.pfull q.
+
+Lemma agree_succ_turn p q m : agree p q -> agree (Rules.succ_turn p m) (Rules.succ_turn q m).
+Proof.
+  destruct p as [cs tn rg ep hf fl], q as [cs' tn' rg' ep' hf' fl'].
+  unfold agree; cbn [Rules.cells Rules.pturn Rules.phalf Rules.pfull].
+  intros (-> & -> & -> & ->). repeat split.
+Qed.
+
+Lemma agree_trans p q r : agree p q -> agree q r -> agree p r.
+Proof. unfold agree. intros (A & B & C & D) (A' & B' & C' & D'). repeat split; congruence. Qed.
+
+Section SpecFold.
+Variable T : ztable.
+Variable good : board -> Prop.
+Hypothesis placement_refines : forall b m b1,
+  good b -> apply_move T m b = Ok b1 ->
+  good (toggle_turn b1) /\
+  Rules.cells (abstract (toggle_turn b1)) = Rules.cells (Rules.succ_turn (abstract b) m) /\
+  Rules.pturn (abstract (toggle_turn b1)) = Rules.pturn (Rules.succ_turn (abstract b) m).
+
+Theorem clocks_faithful_spec ms : forall b b' p,
+  good b -> agree (abstract b) p ->
+  play T ms b = Ok b' -> Forall (fun m => mv_from m < 64) ms ->
+  agree (abstract b') (fold_left Rules.succ_turn ms p).
+Proof.
+  induction ms as [|m ms IH]; intros b b' p G A H HF.
+  - cbn in H. inversion H; subst. exact A.
+  - cbn [play] in H. destruct (apply_move T m b) as [b1|e|] eqn:Eq1; cbn [bind] in H; try discriminate H.
+    inversion HF as [|m' ms' Hm HF']; subst.
+    destruct (placement_refines _ _ _ G Eq1) as (G1 & Cc & Ct).
+    destruct (apply_abs_clocks_turn T _ _ _ Eq1 Hm) as [Ch Cf].
+    cbn [fold_left]. apply (IH (toggle_turn b1) b' (Rules.succ_turn p m) G1); try assumption.
+    apply (agree_trans _ (Rules.succ_turn (abstract b) m)).
+    + repeat split; assumption.
+    + apply agree_succ_turn. exact A.
+Qed.
+
+Corollary clocks_faithful_spec_clocks ms b b' :
+  good b -> play T ms b = Ok b' -> Forall (fun m => mv_from m < 64) ms ->
+  top (hm_stack b') = Rules.phalf (fold_left Rules.succ_turn ms (abstract b)) /\
+  fullmove b' = Rules.pfull (fold_left Rules.succ_turn ms (abstract b)).
+Proof.
+  intros G H HF.
+  destruct (clocks_faithful_spec ms b b' (abstract b) G) as (_ & _ & Ch & Cf); try assumption.
+  - repeat split.
+  - split; [exact Ch|exact Cf].
+Qed.
+
+End SpecFold.
+
+(* ------------------------------------------------------------------------------------ *)
 (* 4. the draw on move count                                                            *)
 (* ------------------------------------------------------------------------------------ *)
 
@@ -418,6 +479,280 @@ Qed.
 End WithGen.
 
 (* ------------------------------------------------------------------------------------ *)
+(* 4b. "neither wraps or aborts however long the game"                                   *)
+(* ------------------------------------------------------------------------------------ *)
+(* The counters are a u16 and a u8 with checked arithmetic (inc_fullmove, inc_halfmove are
+   characterised exactly in CountFrame.v: they Panic iff the value is 65535 resp. 255, or
+   the clock stack is empty).  So the statement cannot hold "however long": it holds while
+   fullmove < 65535, and the clock is kept below 255 by the 100-ply draw.  What we prove:
+   (a) apply_move's outcome KIND does not depend on the counters as long as they are in
+       range: a Panic (or Err) of apply_move with in-range counters happens with any other
+       in-range counters too — e.g. the fresh ones — so it is not the counters' doing
+       (apply_move_counter_independent, apply_no_counter_panic);
+   (b) in a game of fewer than 65534 plies from fullmove = 1, not yet drawn on move count,
+       the counters are in range (game_counters_in_range). *)
+
+(* b with its two counters replaced *)
+Definition rectr (b : board) (l : list N) (n : N) : board := set_fullmove (set_hm b l) n.
+
+Lemma rectr_self b : rectr b (hm_stack b) (fullmove b) = b.
+Proof. destruct b; reflexivity. Qed.
+Lemma rectr_rectr b l n l2 n2 : rectr (rectr b l n) l2 n2 = rectr b l2 n2.
+Proof. reflexivity. Qed.
+
+(* counters in range: the move counter can be incremented, there is a clock and it can be
+   incremented *)
+Definition ctr_ok (l : list N) (n : N) : Prop :=
+  n <> FULLMOVE_MAX /\ exists h r, l = h :: r /\ h <> U8_MAX.
+
+(* same outcome, and on success the same board up to the two counters *)
+Definition sim (r r' : res board) : Prop :=
+  match r, r' with
+  | Ok x, Ok x' => rectr x [] 0 = rectr x' [] 0
+  | Err e, Err e' => e = e'
+  | Panic, Panic => True
+  | _, _ => False
+  end.
+
+Lemma sim_ok_inv x x' : rectr x [] 0 = rectr x' [] 0 -> x' = rectr x (hm_stack x') (fullmove x').
+Proof. destruct x, x'; unfold rectr; cbn. intro H; inversion H; subst. reflexivity. Qed.
+
+Definition lift (l : list N) (n : N) (r : res board) : res board :=
+  match r with Ok b => Ok (rectr b l n) | Err e => Err e | Panic => Panic end.
+
+Section CounterIndependence.
+Variable T : ztable.
+
+Lemma C_bget b l n i : bget (rectr b l n) i = bget b i.
+Proof. reflexivity. Qed.
+Lemma C_pieces b l n c : pieces (rectr b l n) c = pieces b c.
+Proof. destruct c; reflexivity. Qed.
+
+Lemma C_put b l n i p c : put T (rectr b l n) i p c = lift l n (put T b i p c).
+Proof.
+  unfold put. change (is_occupied (rectr b l n) i) with (is_occupied b i).
+  destruct (is_occupied b i); [reflexivity|]. rewrite C_pieces.
+  destruct (pput (pieces b c) i p) as [s|e|]; cbn [bind lift]; try reflexivity.
+  f_equal. destruct c; reflexivity.
+Qed.
+
+Lemma C_bremove b l n i :
+  bremove T (rectr b l n) i =
+  match bremove T b i with Some (pc, b1) => Some (pc, rectr b1 l n) | None => None end.
+Proof.
+  unfold bremove. rewrite C_bget. destruct (bget b i) as [[p c]|]; [|reflexivity].
+  rewrite C_pieces. destruct (premove (pieces b c) i) as [[q s]|]; [|reflexivity].
+  f_equal. f_equal. destruct c; reflexivity.
+Qed.
+
+Lemma C_remove_unwrap b l n i : remove_unwrap T (rectr b l n) i = lift l n (remove_unwrap T b i).
+Proof.
+  unfold remove_unwrap. rewrite C_bremove. destruct (bremove T b i) as [[pc b1]|]; reflexivity.
+Qed.
+
+Lemma C_push_ep b l n t : push_ep T (rectr b l n) t = lift l n (push_ep T b t).
+Proof.
+  unfold push_ep, peek_ep. change (ep_stack (rectr b l n)) with (ep_stack b).
+  destruct (ep_stack b) as [|x r]; [reflexivity|]. cbn [bind lift]. f_equal.
+  unfold toggle_ep. destruct (is_empty x), (is_empty t); reflexivity.
+Qed.
+
+Lemma C_lose_rights b l n lost : lose_rights T (rectr b l n) lost = lift l n (lose_rights T b lost).
+Proof.
+  unfold lose_rights, peek_rights. change (cr_stack (rectr b l n)) with (cr_stack b).
+  destruct (cr_stack b) as [|x r]; reflexivity.
+Qed.
+
+Lemma C_preserve_rights b l n : preserve_rights (rectr b l n) = lift l n (preserve_rights b).
+Proof.
+  unfold preserve_rights, peek_rights. change (cr_stack (rectr b l n)) with (cr_stack b).
+  destruct (cr_stack b) as [|x r]; reflexivity.
+Qed.
+
+Lemma C_inc_fullmove b l n :
+  inc_fullmove (rectr b l n) = if n =? FULLMOVE_MAX then Panic else Ok (rectr b l (n + 1)).
+Proof. reflexivity. Qed.
+Lemma C_inc_halfmove b l n :
+  inc_halfmove (rectr b l n) =
+  match l with [] => Panic | h :: _ => if h =? U8_MAX then Panic else Ok (rectr b ((h + 1) :: l) n) end.
+Proof. destruct l as [|h r]; [reflexivity|]. unfold inc_halfmove, halfmove. cbn [rectr set_fullmove set_hm hm_stack bind]. destruct (h =? U8_MAX); reflexivity. Qed.
+Lemma C_reset_halfmove b l n : reset_halfmove (rectr b l n) = rectr b (0 :: l) n.
+Proof. reflexivity. Qed.
+
+Lemma unwrap_lift l n r : unwrap (lift l n r) = lift l n (unwrap r).
+Proof. destruct r; reflexivity. Qed.
+
+Lemma sim_lift l n l' n' r : sim (lift l n r) (lift l' n' r).
+Proof. destruct r; cbn; auto. Qed.
+
+Lemma ctr_ok_inv l n : ctr_ok l n ->
+  (n =? FULLMOVE_MAX) = false /\ exists h r, l = h :: r /\ (h =? U8_MAX) = false.
+Proof.
+  intros [Hn (h & r & Hl & Hh)]. split; [apply N.eqb_neq; exact Hn|].
+  exists h, r. split; [exact Hl|apply N.eqb_neq; exact Hh].
+Qed.
+
+Lemma apply_std_sim b l n l' n' f t cap :
+  ctr_ok l n -> ctr_ok l' n' ->
+  sim (apply_std T (rectr b l n) f t cap) (apply_std T (rectr b l' n') f t cap).
+Proof.
+  intros K K'. destruct (ctr_ok_inv _ _ K) as (Hn & h & r & -> & Hh).
+  destruct (ctr_ok_inv _ _ K') as (Hn' & h' & r' & -> & Hh').
+  unfold apply_std. rewrite !C_bremove.
+  destruct (bremove T b f) as [[[p c] b1]|]; [|reflexivity].
+  rewrite !C_bremove.
+  assert (tailsim : forall l2 n2 l2' n2' (y : board) (cpt : option (piece * color)),
+    (n2 =? FULLMOVE_MAX) = false -> (n2' =? FULLMOVE_MAX) = false ->
+    sim (let* b4 := inc_fullmove (rectr y l2 n2) in
+         let* b5 := push_ep T b4 (ep_target_of p c f t) in
+         let* b6 := lose_rights T b5 (N.lor (lost_if_moved p c f) (lost_if_taken cpt t)) in
+         unwrap (put T b6 t p c))
+        (let* b4 := inc_fullmove (rectr y l2' n2') in
+         let* b5 := push_ep T b4 (ep_target_of p c f t) in
+         let* b6 := lose_rights T b5 (N.lor (lost_if_moved p c f) (lost_if_taken cpt t)) in
+         unwrap (put T b6 t p c))).
+  { intros l2 n2 l2' n2' y cpt E E'. rewrite !C_inc_fullmove, E, E'. cbn [bind].
+    rewrite !C_push_ep. destruct (push_ep T y (ep_target_of p c f t)) as [y5|e|]; cbn [lift bind]; try (cbn [sim]; auto; fail).
+    rewrite !C_lose_rights. destruct (lose_rights T y5 _) as [y6|e|]; cbn [lift bind]; try (cbn [sim]; auto; fail).
+    rewrite !C_put, !unwrap_lift. apply sim_lift. }
+  destruct (bremove T b1 t) as [[pc b2]|].
+  - destruct (negb (opt_pc_eqb (Some pc) (option_map (fun cp => (cp, opp_c c)) cap))); [reflexivity|].
+    cbn [bind]. rewrite !C_reset_halfmove. apply tailsim; assumption.
+  - destruct (negb (opt_pc_eqb None (option_map (fun cp => (cp, opp_c c)) cap))); [reflexivity|].
+    destruct (piece_eqb p Pawn).
+    + cbn [bind]. rewrite !C_reset_halfmove. apply tailsim; assumption.
+    + rewrite !C_inc_halfmove, Hh, Hh'. cbn [bind]. apply tailsim; assumption.
+Qed.
+
+Lemma apply_promo_sim b l n l' n' f t cap pp :
+  ctr_ok l n -> ctr_ok l' n' ->
+  sim (apply_promo T (rectr b l n) f t cap pp) (apply_promo T (rectr b l' n') f t cap pp).
+Proof.
+  intros K K'. pose proof (apply_std_sim b l n l' n' f t cap K K') as S.
+  unfold apply_promo.
+  destruct (apply_std T (rectr b l n) f t cap) as [x|e|],
+           (apply_std T (rectr b l' n') f t cap) as [x'|e'|]; cbn [sim] in S; try contradiction;
+  cbn [bind]; try (cbn [sim]; auto; fail).
+  apply sim_ok_inv in S. rewrite S. rewrite C_bremove.
+  destruct (bremove T x t) as [[[q d] y]|]; [|reflexivity].
+  destruct q; try reflexivity.
+  rewrite C_put. rewrite <- (rectr_self y) at 1. rewrite C_put. apply sim_lift.
+Qed.
+
+Lemma apply_ep_sim b l n l' n' f t :
+  ctr_ok l n -> ctr_ok l' n' ->
+  sim (apply_ep T (rectr b l n) f t) (apply_ep T (rectr b l' n') f t).
+Proof.
+  intros K K'. destruct (ctr_ok_inv _ _ K) as (Hn & _).
+  destruct (ctr_ok_inv _ _ K') as (Hn' & _).
+  unfold apply_ep. rewrite !C_bremove.
+  destruct (bremove T b f) as [[[p c] b1]|]; [|reflexivity].
+  destruct (negb (piece_eqb p Pawn)); [reflexivity|].
+  rewrite !C_bremove. destruct (bremove T b1 (ep_captured_square c t)) as [[pc b2]|]; [|reflexivity].
+  rewrite !C_reset_halfmove, !C_inc_fullmove, Hn, Hn'. cbn [bind].
+  rewrite !C_push_ep. destruct (push_ep T b2 0) as [y5|e|]; cbn [lift bind]; try (cbn [sim]; auto; fail).
+  rewrite !C_preserve_rights. destruct (preserve_rights y5) as [y6|e|]; cbn [lift bind]; try (cbn [sim]; auto; fail).
+  rewrite !C_put. apply sim_lift.
+Qed.
+
+Lemma apply_castle_sim b l n l' n' f t :
+  ctr_ok l n -> ctr_ok l' n' ->
+  sim (apply_castle T (rectr b l n) f t) (apply_castle T (rectr b l' n') f t).
+Proof.
+  intros K K'. destruct (ctr_ok_inv _ _ K) as (Hn & h & r & -> & Hh).
+  destruct (ctr_ok_inv _ _ K') as (Hn' & h' & r' & -> & Hh').
+  unfold apply_castle. destruct (castle_shape f t) as [[[c rf] rt]|e|]; cbn [bind]; try (cbn [sim]; auto; fail).
+  rewrite !C_bget.
+  destruct (negb (opt_pc_eqb (bget b f) (Some (King, c)))); [reflexivity|].
+  destruct (negb (is_none (bget b t))); [reflexivity|].
+  destruct (negb (opt_pc_eqb (bget b rf) (Some (Rook, c)))); [reflexivity|].
+  destruct (negb (is_none (bget b rt))); [reflexivity|].
+  rewrite !C_remove_unwrap. destruct (remove_unwrap T b f) as [y1|e|]; cbn [lift bind]; try (cbn [sim]; auto; fail).
+  rewrite !C_put, !unwrap_lift. destruct (unwrap (put T y1 t King c)) as [y2|e|]; cbn [lift bind]; try (cbn [sim]; auto; fail).
+  rewrite !C_remove_unwrap. destruct (remove_unwrap T y2 rf) as [y3|e|]; cbn [lift bind]; try (cbn [sim]; auto; fail).
+  rewrite !C_put, !unwrap_lift. destruct (unwrap (put T y3 rt Rook c)) as [y4|e|]; cbn [lift bind]; try (cbn [sim]; auto; fail).
+  rewrite !C_inc_halfmove, Hh, Hh'. cbn [bind].
+  rewrite !C_inc_fullmove, Hn, Hn'. cbn [bind].
+  rewrite !C_push_ep. destruct (push_ep T y4 0) as [y7|e|]; cbn [lift bind]; try (cbn [sim]; auto; fail).
+  rewrite !C_lose_rights. apply sim_lift.
+Qed.
+
+(* (a) the outcome of apply_move does not depend on in-range counters *)
+Theorem apply_move_counter_independent m b l n l' n' :
+  ctr_ok l n -> ctr_ok l' n' ->
+  sim (apply_move T m (rectr b l n)) (apply_move T m (rectr b l' n')).
+Proof.
+  intros K K'. destruct m as [f t cap|f t cap pp|f t|f t]; cbn [apply_move].
+  - apply apply_std_sim; assumption.
+  - apply apply_promo_sim; assumption.
+  - apply apply_ep_sim; assumption.
+  - apply apply_castle_sim; assumption.
+Qed.
+
+(* a Panic of apply_move with counters in range is not a counter overflow: the same move on
+   the same board with ANY in-range counters (e.g. the fresh [0] and 1) panics as well.
+   (The remaining Panic sources are an empty en-passant / castle-rights stack and the
+   unwrap()s of Board::put / Board::remove, none of which reads the counters.) *)
+Theorem apply_no_counter_panic m b :
+  apply_move T m b = Panic ->
+  fullmove b <> FULLMOVE_MAX -> hm_stack b <> [] -> top (hm_stack b) <> U8_MAX ->
+  forall l' n', ctr_ok l' n' -> apply_move T m (rectr b l' n') = Panic.
+Proof.
+  intros H Hf Hne Hh l' n' K'.
+  assert (K : ctr_ok (hm_stack b) (fullmove b)).
+  { split; [exact Hf|]. destruct (hm_stack b) as [|h r]; [contradiction|]. exists h, r. split; [reflexivity|exact Hh]. }
+  pose proof (apply_move_counter_independent m b _ _ l' n' K K') as S.
+  rewrite rectr_self, H in S. destruct (apply_move T m (rectr b l' n')); cbn [sim] in S; try contradiction.
+  reflexivity.
+Qed.
+
+Corollary apply_no_counter_panic_fresh m b :
+  apply_move T m b = Panic ->
+  fullmove b <> FULLMOVE_MAX -> hm_stack b <> [] -> top (hm_stack b) <> U8_MAX ->
+  apply_move T m (rectr b [0] 1) = Panic.
+Proof.
+  intros H Hf Hne Hh. apply (apply_no_counter_panic m b H Hf Hne Hh).
+  split; [discriminate|]. exists 0, []. split; [reflexivity|discriminate].
+Qed.
+
+End CounterIndependence.
+
+Section GameRange.
+Variable T : ztable.
+Variables rook_t bishop_t : N -> N -> N.
+
+(* (b) in a game of fewer than 65534 plies from move counter 1 that is not yet drawn on move
+   count, both counters are in range, so by (a) no abort of the next move is theirs *)
+Theorem game_counters_in_range ms b b1 c s e bx :
+  play T ms b = Ok b1 -> hm_stack b <> [] ->
+  fullmove b = 1 -> N.of_nat (length ms) < 65534 ->
+  max_seen b1 = Ok s -> s <> REPETITION_DRAW_COUNT ->
+  game_ending T rook_t bishop_t b1 c = Ok (e, bx) -> e <> Some Draw ->
+  ctr_ok (hm_stack b1) (fullmove b1) /\ fullmove b1 = 1 + N.of_nat (length ms) /\ top (hm_stack b1) < 100.
+Proof.
+  intros H Hne Hf Hlen Hs Hs3 He Hd.
+  assert (F : fullmove b1 = fullmove b + N.of_nat (length ms) /\ length (hm_stack b1) = (length (hm_stack b) + length ms)%nat).
+  { clear - H. revert b b1 H. induction ms as [|m ms IH]; intros b b1 H.
+    - cbn in H. inversion H; subst. cbn [length]. split; lia.
+    - cbn [play] in H. destruct (apply_move T m b) as [b2|er|] eqn:A; cbn [bind] in H; try discriminate H.
+      destruct (IH _ _ H) as [F L]. destruct (apply_clocks T _ _ _ A) as [F1 S1].
+      change (fullmove (toggle_turn b2)) with (fullmove b2) in F.
+      change (hm_stack (toggle_turn b2)) with (hm_stack b2) in L.
+      rewrite S1 in L. cbn [length] in *. split; lia. }
+  destruct F as [F L].
+  destruct (hm_stack b1) as [|h r] eqn:E1.
+  { destruct (hm_stack b); [contradiction|cbn [length] in L; lia]. }
+  assert (Hh : halfmove b1 = Ok h) by (unfold halfmove; rewrite E1; reflexivity).
+  destruct (clock_below_255_unless_drawn T rook_t bishop_t b1 c s h e bx Hs Hs3 Hh He Hd) as [L100 _].
+  split; [|split].
+  - split; [unfold FULLMOVE_MAX; lia|]. exists h, r. split; [reflexivity|unfold U8_MAX; lia].
+  - lia.
+  - cbn [top hd]. exact L100.
+Qed.
+
+End GameRange.
+
+(* ------------------------------------------------------------------------------------ *)
 (* 5. Examples: the hypotheses are satisfiable, on the starting position                 *)
 (* ------------------------------------------------------------------------------------ *)
 Ltac vm_conj :=
@@ -480,10 +815,38 @@ Example ex_no_draw_at_99 :
                   | Ok x => Some x | _ => None end) = Some None.
 Proof. vm_conj. Qed.
 
+(* hypotheses of apply_no_counter_panic: a Panic that is not the counters' (the en-passant
+   stack is empty), with the counters in range; and the conclusion checked on it *)
+Example ex_foreign_panic :
+  apply_move zero_table ex_Nf3 (set_ep ex_b0 []) = Panic /\
+  fullmove (set_ep ex_b0 []) = 1 /\ hm_stack (set_ep ex_b0 []) = [0] /\
+  apply_move zero_table ex_Nf3 (rectr (set_ep ex_b0 []) [7; 3] 500) = Panic.
+Proof. vm_conj. Qed.
+(* ... whereas the counters at their maximum do abort an otherwise fine move *)
+Example ex_counter_panic :
+  apply_move zero_table ex_Nf3 (rectr ex_b0 [0] 65535) = Panic /\
+  apply_move zero_table ex_Nf3 (rectr ex_b0 [255] 1) = Panic /\
+  apply_move zero_table ex_e5 (rectr (toggle_turn ex_b1) [255] 1) = Ok (rectr ex_b2 [0; 255] 2).
+Proof. vm_conj. Qed.
+
+(* hypotheses of game_counters_in_range *)
+Example ex_in_range :
+  exists b1, play zero_table [ex_Nf3; ex_Nf6] ex_b0 = Ok b1 /\ hm_stack ex_b0 <> [] /\ fullmove ex_b0 = 1 /\
+    max_seen b1 = Ok 1 /\
+    match game_ending zero_table rook_ref bishop_ref b1 White with Ok (e, _) => e = None | _ => False end.
+Proof.
+  exists (ok_or board_new (play zero_table [ex_Nf3; ex_Nf6] ex_b0)).
+  split; [vm_compute; reflexivity|]. split; [vm_compute; discriminate|]. vm_conj.
+Qed.
+
 Print Assumptions apply_clocks.
 Print Assumptions undo_clocks.
 Print Assumptions apply_clocks_board.
 Print Assumptions apply_abs_clocks.
 Print Assumptions clocks_faithful.
+Print Assumptions clocks_faithful_spec.
 Print Assumptions draw_iff_100.
 Print Assumptions draw_after_play.
+Print Assumptions apply_move_counter_independent.
+Print Assumptions apply_no_counter_panic.
+Print Assumptions game_counters_in_range.
